@@ -2570,7 +2570,7 @@ class TagCollection(list):
         ret = TagCollection()
 
         for tag in self:
-            ret.append(tag)
+            ret += [tag]
             ret += tag.getAllChildNodes()
 
         return ret
